@@ -100,11 +100,11 @@ static void env_cases(void) {
       /* (iv) prior destination contents */
       int has_o = 0; for (int k = 0; k < o->nmat; k++) if (o->role[k] == 'o') has_o = 1;
       if (has_o) {
-        outcome ref; int haveref = 0;
-        for (int df = 0; df < 3; df++) {
+        for (int df = 1; df < 3; df++) {
           if (!vx_case_begin("%s|dst=%d|shape=%d|data=%d", o->name, df, si, data)) continue;
+          /* reference: the same call with an all-zero destination (computed inside the case, so that replay by index is exact) */
+          outcome ref = run_owned(o, s, data, 0); m4ri_mmc_cleanup();
           outcome g = run_owned(o, s, data, df);
-          if (!haveref) { ref = g; haveref = 1; m4ri_mmc_cleanup(); g = run_owned(o, s, data, df); }
           compare(o, "prior-destination", ref, g, desc);
           vx_input(g.dig ^ ((uint64_t)df << 44), 1);
           vx_case_end();
